@@ -471,9 +471,162 @@ func specGrid(tier string) seqmc.Spec {
 	}}
 }
 
+// ---- fixed response lists and the DisableSync option
+
+func fixedResp(kind string) *gpb.SubscribeResponse {
+	el := func(n string) *gpb.Path { return &gpb.Path{Element: []string{n}} }
+	upd := func(ts int64, n string) *gpb.SubscribeResponse {
+		return &gpb.SubscribeResponse{Response: &gpb.SubscribeResponse_Update{Update: &gpb.Notification{Timestamp: ts, Update: []*gpb.Update{{Path: el(n), Val: &gpb.TypedValue{Value: &gpb.TypedValue_IntVal{IntVal: ts}}}}}}}
+	}
+	switch kind {
+	case "u1":
+		return upd(1, "a")
+	case "u3":
+		return upd(3, "b")
+	case "u2":
+		return upd(2, "c") // older than a preceding u3: lists are played as given
+	case "d2":
+		return &gpb.SubscribeResponse{Response: &gpb.SubscribeResponse_Update{Update: &gpb.Notification{Timestamp: 2, Delete: []*gpb.Path{el("a")}}}}
+	}
+	return &gpb.SubscribeResponse{Response: &gpb.SubscribeResponse_SyncResponse{SyncResponse: true}}
+}
+
+func renderResps(rs []*gpb.SubscribeResponse) string {
+	var b strings.Builder
+	for _, r := range rs {
+		x, _ := proto.MarshalOptions{Deterministic: true}.Marshal(r)
+		fmt.Fprintf(&b, "%x;", x)
+	}
+	return b.String()
+}
+
+// specFixed: the fixed generator plays the configured responses exactly once,
+// in the configured order, followed by one sync marker unless DisableSync is
+// set; the same configuration object played twice gives the same stream and
+// is left as it was. Also DisableSync with the value generator.
+func specFixed() seqmc.Spec {
+	kinds := []string{"u1", "u3", "u2", "d2", "s"}
+	var lists [][]string
+	var rec func(cur []string)
+	rec = func(cur []string) {
+		lists = append(lists, append([]string{}, cur...))
+		if len(cur) == 3 {
+			return
+		}
+		for _, k := range kinds {
+			rec(append(cur, k))
+		}
+	}
+	rec(nil)
+	type fc struct {
+		list           []string
+		delay, disable bool
+		spare          bool // configured slice has spare capacity (an append in place would be visible to a second player)
+	}
+	var cases []fc
+	for _, l := range lists {
+		for _, delay := range []bool{false, true} {
+			for _, dis := range []bool{false, true} {
+				for _, spare := range []bool{false, true} {
+					cases = append(cases, fc{l, delay, dis, spare})
+				}
+			}
+		}
+	}
+	return seqmc.Spec{Name: fmt.Sprintf("fixed response lists (%d configurations) through the queue and the fake agent, DisableSync", len(cases)), N: len(cases), Run: func(i int) (string, bool, []seqmc.Violation) {
+		c := cases[i]
+		desc := fmt.Sprintf("fixed %v delay=%v disable_sync=%v spare=%v", c.list, c.delay, c.disable, c.spare)
+		mk := func() []*gpb.SubscribeResponse {
+			out := make([]*gpb.SubscribeResponse, 0, len(c.list)+4)
+			for _, k := range c.list {
+				out = append(out, fixedResp(k))
+			}
+			if !c.spare {
+				out = out[:len(out):len(out)]
+			}
+			return out
+		}
+		want := renderResps(mk())
+		// (a) the queue itself
+		resps := mk()
+		q := queue.NewFixed(resps, c.delay)
+		var got []*gpb.SubscribeResponse
+		for k := 0; k < len(c.list)+2; k++ {
+			v, err := q.Next()
+			if err != nil {
+				return desc, true, vio("fixed-queue-error", "%s: Next returned %v", desc, err)
+			}
+			if v == nil {
+				break
+			}
+			got = append(got, v.(*gpb.SubscribeResponse))
+		}
+		if renderResps(got) != want {
+			return desc, true, vio("fixed-queue-order", "%s: the queue played %d responses, not the %d configured ones in their order", desc, len(got), len(c.list))
+		}
+		extra := fixedResp("u3")
+		q.Add(extra)
+		if v, err := q.Next(); err != nil || v == nil || !proto.Equal(v.(*gpb.SubscribeResponse), extra) {
+			return desc, true, vio("fixed-queue-add", "%s: a response added to the drained queue was not played next (%v, %v)", desc, v, err)
+		}
+		if v, _ := q.Next(); v != nil {
+			return desc, true, vio("fixed-queue-order", "%s: the queue played a response twice", desc)
+		}
+		// (b) through the fake agent, the same configuration object played twice
+		cfg := &fpb.Config{Target: "t", EnableDelay: c.delay, DisableSync: c.disable, Generator: &fpb.Config_Fixed{Fixed: &fpb.FixedGenerator{Responses: mk()}}}
+		before := renderResps(cfg.GetFixed().Responses)
+		wantAgent := mk()
+		if !c.disable {
+			wantAgent = append(wantAgent, fixedResp("s"))
+		}
+		for round := 1; round <= 2; round++ {
+			cl := fgnmi.NewClient(cfg)
+			st := &fakeStream{req: &gpb.SubscribeRequest{Request: &gpb.SubscribeRequest_Subscribe{Subscribe: &gpb.SubscriptionList{}}}, done: make(chan struct{})}
+			cl.Run(st)
+			close(st.done)
+			if renderResps(st.sent) != renderResps(wantAgent) {
+				return desc, true, vio("fixed-agent-stream", "%s: play %d through the agent sent %d responses; expected the %d configured ones in order%s", desc, round, len(st.sent), len(c.list), map[bool]string{false: " followed by one sync marker", true: " and no sync marker"}[c.disable])
+			}
+			if renderResps(cfg.GetFixed().Responses) != before {
+				return desc, true, vio("generator-mutates-configuration", "%s: playing the fixed generator modified the configured response list", desc)
+			}
+		}
+		// (c) DisableSync with the value generator: no sync marker, same emissions
+		if len(c.list) > 0 && !c.delay && !c.spare {
+			var vals []*fpb.Value
+			for j := range c.list {
+				vals = append(vals, vspec{16, int64(j % 2), 1, 1, 2, 0}.build(fmt.Sprintf("v%d", j)))
+			}
+			gcfg := &fpb.Config{Target: "t", Seed: 1, DisableSync: c.disable, Values: vals}
+			cl := fgnmi.NewClient(gcfg)
+			st := &fakeStream{req: &gpb.SubscribeRequest{Request: &gpb.SubscribeRequest_Subscribe{Subscribe: &gpb.SubscriptionList{}}}, done: make(chan struct{})}
+			cl.Run(st)
+			close(st.done)
+			syncs, upds := 0, 0
+			for _, r := range st.sent {
+				if r.GetSyncResponse() {
+					syncs++
+				} else {
+					upds++
+				}
+			}
+			wantSyncs := 1
+			if c.disable {
+				wantSyncs = 0
+			}
+			if syncs != wantSyncs || upds != 2*len(vals) {
+				return desc, true, vio("agent-sync-count", "%s: value generator with disable_sync=%v sent %d sync markers and %d updates (expected %d and %d)", desc, c.disable, syncs, upds, wantSyncs, 2*len(vals))
+			}
+		}
+		return desc, len(c.list) > 1, nil
+	}}
+}
+
 type harness struct{}
 
-func (harness) Property() string               { return "C20" }
-func (harness) Specs(tier string) []seqmc.Spec { return []seqmc.Spec{specGrid(tier)} }
+func (harness) Property() string { return "C20" }
+func (harness) Specs(tier string) []seqmc.Spec {
+	return []seqmc.Spec{specGrid(tier), specFixed()}
+}
 
 func main() { seqmc.Main(harness{}) }
